@@ -1,5 +1,7 @@
 package graphql
 
+import "sort"
+
 type SchemaConfig struct {
 	Query        *Object
 	Mutation     *Object
@@ -127,6 +129,10 @@ func NewSchema(config SchemaConfig) (Schema, error) {
 			}
 		}
 	}
+	// schema.typeMap is a Go map: list implementations in a defined (name) order.
+	for _, impls := range schema.implementations {
+		sort.Slice(impls, func(i, j int) bool { return impls[i].Name() < impls[j].Name() })
+	}
 
 	// Enforce correct interface implementations
 	for _, ttype := range schema.typeMap {
@@ -169,6 +175,10 @@ func (gq *Schema) AddImplementation() error {
 				gq.implementations[iface.Name()] = impls
 			}
 		}
+	}
+	// gq.typeMap is a Go map: list implementations in a defined (name) order.
+	for _, impls := range gq.implementations {
+		sort.Slice(impls, func(i, j int) bool { return impls[i].Name() < impls[j].Name() })
 	}
 
 	// Enforce correct interface implementations
